@@ -244,12 +244,17 @@ func safeExec(t T, n string) (r Render) {
 	return Render{Out: out}
 }
 
-func askObs(pv P, q Req) (Obs, T) {
+func askObs(pv P, q Req) (Obs, T) { return askObsVia(pv, q, q.K != 'V') }
+
+// askObsVia: viaClone=false executes exactly what the provider handed out, as a caller would
+// (the library's own tests execute the result of Layout()); the provider must stay able to
+// answer every later request all the same.
+func askObsVia(pv P, q Req, viaClone bool) (Obs, T) {
 	t, err := pv.Get(q)
 	if err != nil {
 		return Obs{Err: true, Msg: err.Error()}, nil
 	}
-	return observe(t, q.K != 'V'), t
+	return observe(t, viaClone), t
 }
 
 // refObs builds the answer with the template package directly: parse helpers, clone, parse the
@@ -379,7 +384,7 @@ func (rc *refCache) Model(q Req) ModelObs {
 // seqStats are the counters of a sequential run.
 type seqStats struct {
 	requests, renders, errAnswers, leakProbes, repeats, cachePairs, modelChecks int64
-	overridden                                                                  int64
+	overridden, directExec                                                      int64
 }
 
 type violation struct {
@@ -399,10 +404,16 @@ func runSequence(p *Program, rc *refCache, cached bool, reqs []Req, st *seqStats
 	seen := map[string]bool{}
 	viewsBuilt := map[string]bool{}
 	var all []Obs
+	// in every other sequence the caller executes the base / layout templates it was handed
+	// (not a private clone of them)
+	direct := seqHash(reqs)%2 == 1
 	for i, q := range reqs {
-		got, _ := askObs(pv, q)
+		got, _ := askObsVia(pv, q, q.K != 'V' && !direct)
 		all = append(all, got)
 		st.requests++
+		if direct && q.K != 'V' && !got.Err {
+			st.directExec++
+		}
 		st.renders += int64(len(got.Out))
 		if got.Err {
 			st.errAnswers++
@@ -438,6 +449,17 @@ func runSequence(p *Program, rc *refCache, cached bool, reqs []Req, st *seqStats
 		}
 	}
 	return all, nil
+}
+
+func seqHash(reqs []Req) uint32 {
+	var h uint32 = 2166136261
+	for _, q := range reqs {
+		for _, c := range []byte(q.Key()) {
+			h = (h ^ uint32(c)) * 16777619
+		}
+		h = (h ^ 0xff) * 16777619
+	}
+	return h
 }
 
 // overrideCount says how many names of a view request are defined in more than one layer
